@@ -270,13 +270,13 @@ def generate(ctx):
     for case in ({'L': 100, 'dr': 0.1, 'ops': [['length', 200]]}, {'L': 7, 'dr': 0.3, 'ops': []}, {'L': 10, 'dk': 0.7, 'ops': [['length', 9], ['dr', 0.3]]}):
         ctx.case('setters', case, True, tags=['witness']); suite_setters(ctx, case)
         tc = dict(case, akind='normal', aseed=1); ctx.case('transform', tc, True, tags=['witness']); suite_transform(ctx, tc)
-    for _ in range(ctx.n(250, 2500)):
+    for _ in range(ctx.n(250, 8000)):
         case = gen_dom(rng, maxL, maxops)
         nt = bool(case['ops']) or (case['L'] & (case['L'] - 1)) != 0
         ctx.case('setters', case, nt, tags=['from:' + ('dr' if 'dr' in case else 'dk'), 'nops:%d' % min(len(case['ops']), 5)] +
                  ['op:' + k for k, _ in case['ops'][:6]])
         suite_setters(ctx, case)
-    for _ in range(ctx.n(150, 1500)):
+    for _ in range(ctx.n(150, 5000)):
         case = gen_dom(rng, min(maxL, ctx.n(48, 160)), 4)
         case['akind'] = rng.choice(['normal', 'normal', 'spike', 'smooth', 'wide', 'ones', 'int', 'bool']); case['aseed'] = rng.randrange(10 ** 6)
         case['a'] = float('%.4g' % rng.uniform(-3, 3)); case['decoy'] = rng.random() < 0.5
@@ -287,7 +287,7 @@ def generate(ctx):
     for _ in range(ctx.n(30, 200)):
         case = {'L': gen_len(rng, ctx.n(64, 256)), 'akind': rng.choice(['normal', 'spike', 'smooth']), 'aseed': rng.randrange(10 ** 6)}
         ctx.case('dst', case, True, tags=['dst']); suite_dst(ctx, case)
-    for _ in range(ctx.n(80, 800)):
+    for _ in range(ctx.n(80, 3000)):
         case = gen_dom(rng, ctx.n(24, 64), 0)
         case['rank'] = rng.randint(1, 4); case['sp'] = rng.choice(['R', 'R', 'F', 'F', 'N']); case['aseed'] = rng.randrange(10 ** 6)
         case['dirs'] = [rng.choice(['F', 'R', 'FR', 'RF', 'FF', 'RR', 'FRF', 'RFR'])]
